@@ -855,7 +855,7 @@ pub fn generate(rng: &mut Rng, n: usize, tier: &str) -> Vec<Value> {
                 // exhaustive cuts of a short stream
                 let which = if rng.chance(1, 4) { 1 } else { 0 };
                 let s = stream(rng, which, 14);
-                let parts = if s.len() <= (if thorough { 11 } else { 9 }) { all_splits(s.len()) } else { all_cuts(s.len(), true) };
+                let parts = if s.len() <= 9 { all_splits(s.len()) } else { all_cuts(s.len(), true) };
                 v.push(json!({"kind":"prod","which":which,"input":jbytes(&s),"parts":parts}));
             }
             11..=17 => {
